@@ -7,6 +7,10 @@ LEAF_SELF_TYPES = ("config::Config", "data::Data", "utility::SplittedString", "s
                    "context::RitiContext")
 
 
+CONVERSION_TRAITS = ("std::convert::From", "std::convert::Into", "std::default::Default", "std::convert::AsRef", "std::borrow::Borrow",
+                     "std::ops::Deref", "std::convert::TryFrom")
+
+
 def leaf_roles(prog):
     if getattr(prog, "_leaf_roles", None) is not None:
         return prog._leaf_roles
@@ -14,8 +18,9 @@ def leaf_roles(prog):
     for k, f in prog.fns.items():
         imp = f.get("impl") or {}
         st = imp.get("self") or ""
-        if imp.get("trait"):
-            out.add(k)                                   # trait impl methods (Method, Ord, From, Display, Utility, …)
+        if imp.get("trait") and not (imp["trait"] in CONVERSION_TRAITS and not any(st.startswith(t) for t in LEAF_SELF_TYPES)):
+            out.add(k)                                   # trait impl methods (Method, Ord, Display, Utility, …) — but a conversion
+                                                         # (From / Default / AsRef …) into a private helper type is plumbing and is spliced in
         elif any(st.startswith(t) for t in LEAF_SELF_TYPES):
             out.add(k)                                   # accessors, constructors, getters/setters, data look-ups
         elif st.startswith("(dyn "):
